@@ -46,18 +46,9 @@ func configs(tier string, from string) []Config {
 	}
 	cs = append(cs, Config{"8", 3, 0})
 	if tier == "thorough" {
-		for _, v := range []string{"6.0", "6.1", "6.2", "6.3"} {
-			cs = append(cs, Config{v, 1, 1}, Config{v, 4, 4}, Config{v, 2, 1}, Config{v, 1, 2})
-			if v != "6.3" {
-				cs = append(cs, Config{v, 3, 3})
-			}
-		}
-		for _, v := range []string{"7.0", "7.1", "8"} {
-			cs = append(cs, Config{v, 1, 0}, Config{v, 4, 0})
-			if v != "8" {
-				cs = append(cs, Config{v, 3, 0})
-			}
-		}
+		cs = append(cs, Config{"6.0", 1, 1}, Config{"6.0", 3, 3}, Config{"6.0", 4, 4}, Config{"6.1", 2, 1}, Config{"6.1", 1, 2}, Config{"6.1", 3, 3},
+			Config{"6.2", 1, 1}, Config{"6.2", 3, 3}, Config{"6.3", 1, 1}, Config{"6.3", 4, 4},
+			Config{"7.0", 1, 0}, Config{"7.0", 3, 0}, Config{"7.1", 3, 0}, Config{"7.1", 4, 0}, Config{"8", 1, 0}, Config{"8", 4, 0})
 	}
 	if from != "" {
 		var out []Config
@@ -113,7 +104,7 @@ func machineJob(l *Loaded, cfg Config, sk Skeleton, budgetK int) *Job {
 		Covers: []string{"ref-done", "run-returned"}, MaxPaths: 24, MaxConc: 3, MaxQueries: 3000, MaxSteps: 80_000_000, Note: sk.Note}
 }
 
-const budgetK = 8
+const budgetK = 4
 
 func machineJobs(l *Loaded, cfgs []Config, sks []Skeleton) []*Job {
 	var jobs []*Job
@@ -153,7 +144,7 @@ var machineAssumptions = []string{
 	"debug=false; Stats() not called",
 	"map iteration order policy: ascending keys (C08 varies it); goroutines run eagerly",
 	"the reference interpreter in /verif/harness/verifm/ref.go is the meaning of 'executing the same instructions one at a time'",
-	"cycle budget = 8*(executed+2)*309 loop iterations of Run (instrumented copy of cpu.go) and returned cycles",
+	"cycle budget = 4*(executed+2)*309 loop iterations of Run (instrumented copy of cpu.go) and returned cycles",
 }
 
 var machineOutside = []string{"programs outside the generated families", "data-dependent addresses", "parallelism > 4", "debug=true paths", "real multi-threaded execution"}
@@ -189,12 +180,12 @@ func specC01(l *Loaded, tier string, seed int64) (*Spec, error) {
 	if tier == "thorough" {
 		nDep, nMem, nSh, nTail = 60, 40, 40, 20
 	}
-	sks = append(sks, sample(familyDeps(3, true), nDep, seed)...)
-	sks = append(sks, sample(familyMemDeps(2, false), nMem, seed)...)
-	sks = append(sks, sample(familyShadows(false), nSh, seed)...)
-	sks = append(sks, sample(familyTails(), nTail, seed)...)
+	sks = append(sks, sample(familyDeps(3, true), nDep, 0)...)
+	sks = append(sks, sample(familyMemDeps(2, false), nMem, 0)...)
+	sks = append(sks, sample(familyShadows(false), nSh, 0)...)
+	sks = append(sks, sample(familyTails(), nTail, 0)...)
 	sks = append(sks, familyCacheShort()[:4]...)
-	return machineSpec(l, machineJobs(l, cfgs, sks), isArch, "general programs (ALU/immediate mixes, loops with concrete trip counts, calls, sub-word accesses, the repository's own programs at size 3 with symbolic data) plus a seed-rotated sample of the dependence, memory-dependence, shadow and tail families",
+	return machineSpec(l, machineJobs(l, cfgs, sks), isArch, "general programs (ALU/immediate mixes, loops with concrete trip counts, calls, sub-word accesses, the repository's own programs at size 3 with symbolic data) plus a fixed sample of the dependence, memory-dependence, shadow and tail families",
 		map[string]interface{}{"configurations": cfgNames(cfgs), "skeletons": len(sks), "max_instructions": 17, "memory_bytes": 256}), nil
 }
 
@@ -212,8 +203,8 @@ func specC04(l *Loaded, tier string, seed int64) (*Spec, error) {
 	if tier == "thorough" {
 		n3 = 600
 	}
-	sks = append(sks, sample(familyDeps(3, true), n3, seed)...)
-	return machineSpec(l, machineJobs(l, cfgs, sks), isArch, "every dependence pattern (up to register renaming) on 2 instructions from {add, lw (miss/hit), sw (store data)} over three registers, plus a seed-rotated sample of the 3-instruction patterns that also contain data-dependent branches",
+	sks = append(sks, sample(familyDeps(3, true), n3, 0)...)
+	return machineSpec(l, machineJobs(l, cfgs, sks), isArch, "every dependence pattern (up to register renaming) on 2 instructions from {add, lw (miss/hit), sw (store data)} over three registers, plus a fixed sample of the 3-instruction patterns that also contain data-dependent branches",
 		map[string]interface{}{"configurations": cfgNames(cfgs), "skeletons": len(sks), "two_instruction_patterns": "all (canonical)", "three_instruction_patterns_sampled": n3}), nil
 }
 
@@ -268,13 +259,13 @@ func specC07(l *Loaded, tier string, seed int64) (*Spec, error) {
 	if tier == "thorough" {
 		n = 80
 	}
-	sks = append(sks, sample(familyMemDeps(2, false), n, seed)...)
-	sks = append(sks, sample(familyShadows(false), n, seed)...)
-	sks = append(sks, sample(familyTails(), n, seed)...)
-	sks = append(sks, sample(familyDeps(2, false), n, seed)...)
+	sks = append(sks, sample(familyMemDeps(2, false), n, 0)...)
+	sks = append(sks, sample(familyShadows(false), n, 0)...)
+	sks = append(sks, sample(familyTails(), n, 0)...)
+	sks = append(sks, sample(familyDeps(2, false), n, 0)...)
 	sks = append(sks, familyCacheShort()...)
-	return machineSpec(l, machineJobs(l, cfgs, sks), isTermination, "termination obligations (no Go panic, Run returns within the cycle budget, returned cycles within the bound, ISA-defined errors reported as an error value) on error programs, the general family and a seed-rotated sample of every other family",
-		map[string]interface{}{"configurations": cfgNames(cfgs), "skeletons": len(sks), "budget": "8*(executed+2)*309"}), nil
+	return machineSpec(l, machineJobs(l, cfgs, sks), isTermination, "termination obligations (no Go panic, Run returns within the cycle budget, returned cycles within the bound, ISA-defined errors reported as an error value) on error programs, the general family and a fixed sample of every other family",
+		map[string]interface{}{"configurations": cfgNames(cfgs), "skeletons": len(sks), "budget": "4*(executed+2)*309"}), nil
 }
 
 func specC12(l *Loaded, tier string, seed int64) (*Spec, error) {
@@ -284,8 +275,8 @@ func specC12(l *Loaded, tier string, seed int64) (*Spec, error) {
 	if tier == "thorough" {
 		n = 60
 	}
-	sks = append(sks, sample(familyTails(), n, seed)...)
-	sks = append(sks, sample(familyMemDeps(2, false), n, seed)...)
+	sks = append(sks, sample(familyTails(), n, 0)...)
+	sks = append(sks, sample(familyMemDeps(2, false), n, 0)...)
 	sks = append(sks, familyCacheShort()[:3]...)
 	jobs := machineJobs(l, cfgs, sks)
 	return machineSpec(l, jobs, isCycles, "cycle obligations: MVP-1 equals the analytic latency sum over the reference trace, MVP-2 is not slower than that sum, every variant returns a positive count that is at least executed/width",
